@@ -66,6 +66,18 @@ CHECKS = {
          "deterministic simulation of a cluster: partitions with different sizes, SizeInfo asked on every node under seeded yields at the goroutine starts of the lookup loop, crashed node / blocked link as faults; oracle: success implies len = sum over partitions (each once) and bytes within the range the replicas report, a failed lookup implies an error",
          "Seeded search over placements, sizes, completion orders and failing lookups; expected sums are read from the partitions themselves at a quiescent instant.",
          "Byte sizes may differ between replicas of one partition (entry point level), so the byte sum is checked against the [min,max] range."),
+ "C14": ("exploration", "DESIGN.md §3 C14, §2.5 World III",
+         "deterministic simulation of a cluster of real servers driven by generated control-plane histories (create/delete dataset through any node, joins, removals, crash/restart of one or all nodes, zero-group compaction via the snapshot-threshold knob and the fake clock, isolation, message faults); catalogue model from acknowledged operations; all members' catalogues compared after settling and again after a restart of every node",
+         "Seeded search over control-plane histories, snapshot cut points (compaction threshold 2/3/5000 + fake time) and restarts: every member lists the same catalogue (id, dimension, metric, partition ids, replica assignment), acknowledged creates are present, acknowledged deletes are gone (also their partition groups), replay and snapshot+suffix agree.",
+         "Unacknowledged operations are indeterminate; node 1 is never removed (it is every node's join target); removals are only issued while the remaining members form a majority."),
+ "C18": ("exploration", "DESIGN.md §3 C18, §2.5 World III",
+         "deterministic simulation with bursts of unawaited create/delete/join steps, removals, restarts of nodes holding datasets; simulated mutexes make lock waits durable so that a wedge is visible at a quiescent instant; bounded-liveness oracle: settle within 120 simulated seconds, no catalogue lock held while everything is blocked, canary creates succeed on every node",
+         "Seeded search over interleavings of membership notifications with catalogue applications and partition raft loading (yield points, seeded select, unawaited bursts, restart replay); liveness asserted only after faults stop.",
+         "Scheduling owned at hook/RPC/yield granularity; a partition group that lost its quorum to an acknowledged removal is not counted as a control-plane wedge."),
+ "C20": ("exploration", "DESIGN.md §3 C20, §2.5 World III",
+         "deterministic simulation of joins through a member, removals, lost handshake messages (join retried by process restart), zero-group compaction and restart of any/all members; membership model from acknowledged joins/removals; every member's address book compared with the model (ids and announced addresses) after settling and after a restart of all nodes",
+         "Seeded search over join/removal histories, message loss during the handshake, compaction and restart points; after convergence every member lists exactly the acknowledged members with the addresses they announced, also after recovering from a snapshot.",
+         "A join counts as acknowledged when JoinCluster returned; a removal when RemoveNode returned success (the operator repeats the request otherwise)."),
 }
 
 NOT_APPLICABLE = {
